@@ -281,7 +281,7 @@ int
 drv_ref(int argc, char **argv)
 {
         const char *out = NULL, *variant = "sse_t1", *kinds = NULL, *keyvariant = NULL, *replay = NULL;
-        int n = 40, dense = 0, nkeys = 24;
+        int n = 40, dense = 0, nkeys = 24, nowin = 0;
         uint64_t seed = 1;
         for (int i = 0; i < argc; i++) {
                 if (!strcmp(argv[i], "--out"))
@@ -298,6 +298,8 @@ drv_ref(int argc, char **argv)
                         dense = atoi(argv[++i]);
                 else if (!strcmp(argv[i], "--replay"))
                         replay = argv[++i];
+                else if (!strcmp(argv[i], "--no-windows"))
+                        nowin = 1;
                 else if (!strcmp(argv[i], "--keys"))
                         nkeys = atoi(argv[++i]);
                 else if (!strcmp(argv[i], "--seed"))
@@ -344,6 +346,26 @@ drv_ref(int argc, char **argv)
                         hx_seed(&g2, sp.seed ^ 0xc0ffee);
                         ref_spec(klist[k], &sp, &g2);
                 }
+        /* counter-carry windows: with the standard 12-byte IV (GCM) / small nonces the block counter starts
+         * at a fixed small value, so a carry out of its low byte happens at fixed message offsets
+         * (block 254 -> bytes 4064.., block 510 -> bytes 8160..); every length around them */
+        static const long win[][2] = { { 4030, 120 }, { 8130, 110 } };
+        for (int k = 0; k < nk && !nowin; k++) {
+                const char *kn = klist[k];
+                if (!strstr(kn, "GCM") && !strstr(kn, "CTR") && !strstr(kn, "CCM") && !strstr(kn, "GMAC") &&
+                    !strstr(kn, "CHA") && !strstr(kn, "SNOWV"))
+                        continue;
+                for (int w = 0; w < 2; w++)
+                        for (long it = 0; it < win[w][1]; it++) {
+                                hx_spec sp;
+                                hx_force_len = win[w][0] + it;
+                                if (!hx_spec_from_kind(kn, &g, &sp))
+                                        return 2;
+                                hx_rng g2;
+                                hx_seed(&g2, sp.seed ^ 0xc0ffee);
+                                ref_spec(kn, &sp, &g2);
+                        }
+        }
         hx_force_len = -1;
         key_checks(&g, nkeys);
         fclose(hx_trace);
